@@ -172,15 +172,15 @@ Proof.
 Qed.
 
 Example c03_engine_examples :
-  let g1 : group := (Some (b "/api"), [("GET", b "a/:id", 0); ("GET", b "/b/", 1); ("POST", b "", 2)]%string%nat) in
-  let g2 : group := (None, [("GET", b "/c", 3)]%string%nat) in
+  let g1 : group := ([b "/api"], [("GET", b "a/:id", 0); ("GET", b "/b/", 1); ("POST", b "", 2)]%string%nat) in
+  let g2 : group := ([], [("GET", b "/c", 3)]%string%nat) in
   map (fun r => snd (fst r)) (engine_routes [g1; g2]) = [b "/api/a/:id"; b "/api/b"; b "/api"; b "/c"] /\
   snd (engine_register [g1; g2]) = None /\
   route_req (fst (engine_register [g1; g2])) "GET" (b "/api/a/7") = Hit [(0, [(b "id", b "7")])]%nat /\
-  snd (engine_register [g2; (None, [("GET", b "a/b", 4)]%string%nat)]) = Some EPath /\
-  snd (engine_register [(Some (b "api"), [("GET", b "/x", 5)]%string%nat)]) = Some EPath /\
-  snd (engine_register [(Some [], [("GET", b "", 6)]%string%nat)]) = Some EPath /\
-  snd (engine_register [g2; (Some (b "/"), [("GET", b "c/.", 7)]%string%nat)]) = Some EDup.
+  snd (engine_register [g2; ([], [("GET", b "a/b", 4)]%string%nat)]) = Some EPath /\
+  snd (engine_register [([b "api"], [("GET", b "/x", 5)]%string%nat)]) = Some EPath /\
+  snd (engine_register [([[]], [("GET", b "", 6)]%string%nat)]) = Some EPath /\
+  snd (engine_register [g2; ([b "/"], [("GET", b "c/.", 7)]%string%nat)]) = Some EDup.
 Proof. vm_compute. repeat split; reflexivity. Qed.
 
 (* a param route answers, a literal route for the same path is registered afterwards and wins from
@@ -193,3 +193,17 @@ Example c03_history_example :
    HErr None; HOut (Hit [(3, [])]); HErr (Some EDup);
    HErr None; HOut (Hit [(6, [(b "y", b "a%2Fb")])])]%nat.
 Proof. vm_compute. reflexivity. Qed.
+
+(* one caller slice mounted twice under different prefixes (and once with two nested prefixes): each
+   mount registers prefix+path for the same handlers, the slice itself is only read *)
+Example c03_engine_multi_mount :
+  let rs : list reg := [("GET", b "/a/:id", 0); ("POST", b "b", 1)]%string%nat in
+  let gs : list group := [([b "/v1"], rs); ([b "/v2"; b "/x"], rs)] in
+  map (fun r => snd (fst r)) (engine_routes gs) = [b "/v1/a/:id"; b "/v1/b"; b "/x/v2/a/:id"; b "/x/v2/b"] /\
+  snd (engine_register gs) = None /\
+  route_req (fst (engine_register gs)) "GET" (b "/v1/a/7") = Hit [(0, [(b "id", b "7")])]%nat /\
+  route_req (fst (engine_register gs)) "GET" (b "/x/v2/a/7") = Hit [(0, [(b "id", b "7")])]%nat /\
+  route_req (fst (engine_register gs)) "POST" (b "/x/v2/b") = Hit [(1, [])]%nat /\
+  route_req (fst (engine_register gs)) "GET" (b "/v2/v1/a/7") = NotFound /\
+  route_req (fst (engine_register gs)) "GET" (b "/a/7") = NotFound.
+Proof. vm_compute. repeat split; reflexivity. Qed.
